@@ -23,9 +23,14 @@ func runC14(c *Ctx) {
 	c.Rule("C14.EXEC", "FLOW: every SQL string handed to the DuckDB query API by the query handlers derives from a transform result (directly, or through a parameter whose every caller passes one)")
 	c.Rule("C14.ARM", "AGREE vs oracle: the keywords after which maskedTokenInTablePosition treats the next atom as being in table position include every keyword after which DuckDB accepts a table reference (and therefore a replacement scan)")
 	c.Rule("C14.DENY", "PROBE: the deny patterns, extracted from the source and compiled by the checker, reject every file-reading / SQL-running table function and every state-changing or environment-changing statement of the oracle tables")
+	c.Rule("C14.LEX", "COVER: the literal masker on which the table-position test and the permission extraction rely recognises DuckDB's dollar-quoted strings with digits in the tag ($t1$…$t1$) — an unrecognised literal in table position is neither refused nor permission-checked, and DuckDB reads the file it names")
 	c.Rule("C14.PIPE", "AGREE: the normalisation steps applied before extracting table references for the permission check are the ones applied before rewriting table references, and the identifier table of the mask flows to both")
 	c.Rule("C14.HEADER", "FLOW: with a header database, the permission check substitutes it for the default database and the rewriter resolves unqualified tables under it")
 	c.Rule("C14.SANDBOX", "PASS: database.New returns a handle only after lockdownExternalAccess returned nil")
+	if dq := c.MustFunc("C14.LEX", "internal/sql.dollarQuoteTag"); dq != nil {
+		lo, hi := dollarTagDigitRange(dq)
+		c.Check(lo && hi, "C14.LEX", "dollarQuoteTag|digits-after-first", dq.Pos(), "dollar-quote tags may contain digits", "dollarQuoteTag rejects digits inside a tag: `SELECT * FROM $t1$/data/otherdb/m/**/*.parquet$t1$` is a string literal in table position to DuckDB (a replacement scan of that path) but unmasked text here — stringLiteralInTablePosition does not refuse it and the permission extraction finds no table reference")
+	}
 
 	c14Gate(c)
 	c14Exec(c)
